@@ -4,8 +4,6 @@ import (
 	"bytes"
 	"fmt"
 	"math/rand/v2"
-	"os"
-	"strings"
 
 	"github.com/pdfcpu/pdfcpu/pkg/api"
 	"github.com/pdfcpu/pdfcpu/pkg/pdfcpu/model"
@@ -13,112 +11,40 @@ import (
 	"verif/harness/internal/pdfstrict"
 )
 
-func plain(in []byte, validate bool) ([]byte, error) {
-	conf := model.NewDefaultConfiguration()
-	conf.Offline = true
-	conf.Optimize = false
-	conf.OptimizeBeforeWriting = false
-	var ctx *model.Context
-	var err error
-	if validate {
-		ctx, err = api.ReadAndValidate(bytes.NewReader(in), conf)
-	} else {
-		ctx, err = api.ReadContext(bytes.NewReader(in), conf)
-	}
-	if err != nil {
-		return nil, err
-	}
-	var out bytes.Buffer
-	if err := api.WriteContext(ctx, &out); err != nil {
-		return nil, err
-	}
-	return out.Bytes(), nil
-}
-
-func opt(in []byte) ([]byte, error) {
-	conf := model.NewDefaultConfiguration()
-	conf.Offline = true
-	var out bytes.Buffer
-	err := api.Optimize(bytes.NewReader(in), &out, conf)
-	return out.Bytes(), err
-}
-
-var drop = pdfstrict.CanonOpts{DropKeys: map[string]bool{"ID": true, "Producer": true, "ModDate": true, "Size": true, "Prev": true, "XRefStm": true, "W": true, "Index": true}}
-
-func canon(b []byte) (string, *pdfstrict.Doc, error) {
-	d, err := pdfstrict.Open(b, pdfstrict.Options{})
-	if err != nil {
-		return "", d, err
-	}
-	tr := d.Trailer()
-	top := pdfstrict.Dict{"Root": tr["Root"], "Info": tr["Info"]}
-	return d.Canonical(top, drop), d, nil
-}
-
-func firstDiff(a, b string) string {
-	la, lb := strings.Split(a, "\n"), strings.Split(b, "\n")
-	for i := 0; i < len(la) && i < len(lb); i++ {
-		if la[i] != lb[i] {
-			x, y := la[i], lb[i]
-			if len(x) > 700 {
-				x = x[:700]
-			}
-			if len(y) > 700 {
-				y = y[:700]
-			}
-			return fmt.Sprintf("line %d:\n  A: %s\n  B: %s", i, x, y)
-		}
-	}
-	return fmt.Sprintf("len %d vs %d", len(la), len(lb))
-}
-
 func main() {
 	api.DisableConfigDir()
-	n := 40
-	diffs := map[string]int{}
-	for i := 0; i < n; i++ {
-		rng := rand.New(rand.NewPCG(uint64(i), 77))
-		spec := pdfgen.RandomSpec(rng, 6)
-		spec.Updates = 0
-		bt := pdfgen.Build(spec)
-		ca, da, err := canon(bt.Bytes)
-		if err != nil {
-			fmt.Println(i, "orig unreadable", err)
-			continue
-		}
-		if len(da.Defects) > 0 {
-			fmt.Println(i, "orig defects", da.DefectKinds())
-		}
-		for _, mode := range []string{"raw", "validated", "opt"} {
-			var out []byte
-			switch mode {
-			case "raw":
-				out, err = plain(bt.Bytes, false)
-			case "validated":
-				out, err = plain(bt.Bytes, true)
-			default:
-				out, err = opt(bt.Bytes)
-			}
+	for si, s := range pdfgen.OptScenarios {
+		for k := 0; k < 4; k++ {
+			rng := rand.New(rand.NewPCG(uint64(si*10+k), 9))
+			bt := pdfgen.BuildOpt(rng, 1, s)
+			d, err := pdfstrict.Open(bt.Bytes, pdfstrict.Options{})
 			if err != nil {
-				fmt.Println(i, mode, "ERR", err)
+				fmt.Println(s, k, "pdfstrict:", err)
 				continue
 			}
-			cb, _, err := canon(out)
-			if err != nil {
-				fmt.Println(i, mode, "out unreadable", err)
-				continue
+			pg, perr := d.Pages()
+			if len(d.Defects) > 0 || perr != nil {
+				fmt.Println(s, k, "defects", d.DefectKinds(), perr)
 			}
-			if ca != cb {
-				diffs[mode]++
-				if diffs[mode] <= 4 {
-					fmt.Printf("doc %d mode %s DIFF %s\n", i, mode, firstDiff(ca, cb))
-					if len(os.Args) > 1 {
-						os.WriteFile(fmt.Sprintf("/verif/.cache/run/p19-%d-in.pdf", i), bt.Bytes, 0o644)
-						os.WriteFile(fmt.Sprintf("/verif/.cache/run/p19-%d-%s.pdf", i, mode), out, 0o644)
-					}
+			for i, p := range pg {
+				if p.ContentErr != nil || !bytes.Contains(p.Content, []byte(bt.Pages[i].Marker)) {
+					fmt.Println(s, k, "page", i, "content problem", p.ContentErr)
 				}
+			}
+			for _, mode := range []int{model.ValidationRelaxed, model.ValidationStrict} {
+				c := model.NewDefaultConfiguration()
+				c.Offline = true
+				c.ValidationMode = mode
+				if err := api.Validate(bytes.NewReader(bt.Bytes), c); err != nil {
+					fmt.Println(s, k, "pdfcpu validate mode", mode, ":", err)
+				}
+			}
+			c := model.NewDefaultConfiguration()
+			c.Offline = true
+			var out bytes.Buffer
+			if err := api.Optimize(bytes.NewReader(bt.Bytes), &out, c); err != nil {
+				fmt.Println(s, k, "pdfcpu optimize:", err)
 			}
 		}
 	}
-	fmt.Println("diffs", diffs, "of", n)
 }
